@@ -21,7 +21,7 @@ REQUIRED_MONITORS = ["dae_residual_points", "initial_residual_points"]
 BUDGET = {"quick": 45, "thorough": 700}
 
 EXTS = ["ext:ne", "ext:inverse-trig", "ext:array-literal-with-refs", "ext:stepped-range",
-        "ext:der-of-parameter-expression"]
+        "ext:der-of-parameter-expression", "ext:der-of-expression-with-time"]
 CORE_OPS = ["+", "-", "*", "/", "^", "neg", "<", "<=", ">", ">=", "not", "and", "or", "if-expr",
             "min", "max", "abs", "sin", "cos", "exp", "log", "sqrt"]
 
